@@ -175,9 +175,9 @@ func (x *inst) applyMgmt(ev string, f []string) {
 	case "Sync", "Unmap":
 		var err error
 		if f[0] == "Sync" {
-			err = x.guard(ev, func() error { _, e := x.srv.Sync(); return e })
+			err = x.guard(ev, func() error { _, e := x.dio().Sync(); return e })
 		} else {
-			err = x.guard(ev, func() error { _, e := x.srv.Unmap(0, Block); return e })
+			err = x.guard(ev, func() error { _, e := x.dio().Unmap(0, Block); return e })
 		}
 		x.observe("%s -> %v", ev, err != nil)
 		if !m.Open && err == nil {
